@@ -14,7 +14,7 @@ EXPLANATION = (
     "top-level term of the rule (Rule::terms covers head, literals, both comparison sides) and the left sides of `t = t1..t2`. SORT-SITES: who "
     "constructs an integer-sorted variable in natural.rs. TPL: comparison, literal, body, head atom, head interval, basic / choice head, rule "
     "and program templates; FRESH: N<i> chosen against the head atom's variables. MU: per rule natural_rule, else tau_star_rule with the globals "
-    "of the whole program. FLOW-ERR: every refusal (None) of a sub-translation is propagated.")
+    "of the whole program. FLOW-ERR: every refusal (None) of a sub-translation is propagated. SHARED: natural / mu build nested integer terms, so the default printer's precedence and dispatch obligations (C15) run here too.")
 UNDECIDED = ["HT-equivalence of the published natural translation with tau* (Lifschitz 2021; Fandinno, Lifschitz 2023)"]
 ASSUMPTIONS = ["rules/sym.py is faithful on the straight-line / match / loop-and-push code of natural.rs"]
 
